@@ -197,6 +197,20 @@ func (ex *Exec) vtCall(g *G, fn *ssa.Function, args []Value, done func(Value)) {
 	case "AllowLeak":
 		ex.allowLeak = true
 		done(nil)
+	case "Unwind":
+		// raises the loop unwinding bound and the step budget for harnesses that need long concrete loops
+		n, ok := concInt(args[0])
+		if !ok || n < 1 {
+			ex.unsupported("vt.Unwind with non-constant bound")
+		}
+		ex.unwind = n
+		if n*400 > ex.maxSteps {
+			ex.maxSteps = n * 4000
+		}
+		done(nil)
+	case "Settle":
+		// "wait until every other goroutine has run as far as it can": enabled only when nothing else is
+		g.pending = &VisOp{Kind: "settle", Simple: true, Enabled: func() bool { return ex.settling }, Fire: func() { done(nil) }}
 	case "Yield":
 		g.pending = &VisOp{Kind: "yield", Simple: true, Fire: func() { done(nil) }}
 	case "Freeze":
